@@ -100,8 +100,28 @@ enum Mut {
     Set { p: usize, act: Act },
     Ps { ps: usize, pe: usize, acts: Vec<Act> },
     Ops { ps: usize, pe: usize, acts: Vec<Act> },
-    SubPs { vars: Vec<usize>, hints: Vec<Option<usize>>, ps: usize, pe: usize, acts: Vec<Act> },
-    SubOps { vars: Vec<usize>, hints: Vec<Option<usize>>, ps: usize, pe: usize, acts: Vec<Act> },
+    /// subps / subops: `vars` None = `*` (SubvarAccess::All); `fill` = how the cursor is prepared
+    Sub { is_ops: bool, vars: Option<Vec<usize>>, fill: Fill, ps: usize, pe: usize, acts: Vec<Act> },
+}
+
+/// How the args of a sub-variable sweep are filled.
+#[derive(Clone, Debug, PartialEq, Eq)]
+enum Fill {
+    /// get_empty_args(Varlist) + fill_args_at_p_with_hint
+    Hint(Vec<Option<usize>>),
+    /// get_empty_args(..) + fill_args_at_p
+    N,
+    /// get_empty_args(..) + get_empty_args(Args(..)) + fill_args_at_p
+    A,
+}
+impl Fill {
+    fn show(&self) -> String {
+        match self {
+            Fill::Hint(h) => show_hints(h),
+            Fill::N => "N".into(),
+            Fill::A => "A".into(),
+        }
+    }
 }
 
 impl Mut {
@@ -113,8 +133,8 @@ impl Mut {
             Mut::Set { .. } => "set",
             Mut::Ps { .. } => "ps",
             Mut::Ops { .. } => "ops",
-            Mut::SubPs { .. } => "subps",
-            Mut::SubOps { .. } => "subops",
+            Mut::Sub { is_ops: false, .. } => "subps",
+            Mut::Sub { is_ops: true, .. } => "subops",
         }
     }
     fn body(&self) -> String {
@@ -128,8 +148,9 @@ impl Mut {
             Mut::Cutoff(k) => format!("{}", k),
             Mut::Set { p, act } => format!("{} {}", p, act.show()),
             Mut::Ps { ps, pe, acts } | Mut::Ops { ps, pe, acts } => format!("{} {} {}", ps, pe, show_acts(acts)),
-            Mut::SubPs { vars, hints, ps, pe, acts } | Mut::SubOps { vars, hints, ps, pe, acts } => {
-                format!("{} {} {} {} {}", list(vars), show_hints(hints), ps, pe, show_acts(acts))
+            Mut::Sub { vars, fill, ps, pe, acts, .. } => {
+                let vs = vars.as_ref().map(|v| list(v)).unwrap_or_else(|| "*".into());
+                format!("{} {} {} {} {}", vs, fill.show(), ps, pe, show_acts(acts))
             }
         }
     }
@@ -231,7 +252,7 @@ impl Naive {
                 }
             }
             Mut::Set { p, act } => self.write(*p, act, st),
-            Mut::Ps { ps, pe, acts } | Mut::SubPs { ps, pe, acts, .. } => {
+            Mut::Ps { ps, pe, acts } | Mut::Sub { is_ops: false, ps, pe, acts, .. } => {
                 if self.grow(*pe) {
                     bump(st, "growth_in_sweep");
                 }
@@ -239,7 +260,7 @@ impl Naive {
                     self.write(ps + i, a, st);
                 }
             }
-            Mut::Ops { ps, pe, acts } => {
+            Mut::Ops { ps, pe, acts } | Mut::Sub { is_ops: true, vars: None, ps, pe, acts, .. } => {
                 if self.grow(*pe) {
                     bump(st, "growth_in_sweep");
                 }
@@ -249,7 +270,7 @@ impl Naive {
                     }
                 }
             }
-            Mut::SubOps { vars, ps, pe, acts, .. } => {
+            Mut::Sub { is_ops: true, vars: Some(vars), ps, pe, acts, .. } => {
                 if self.grow(*pe) {
                     bump(st, "growth_in_sweep");
                 }
@@ -320,42 +341,77 @@ impl Naive {
                 }
                 Some(Mut::Ops { ps: *ps, pe: *pe, acts })
             }
-            Mut::SubPs { vars, hints, ps, pe, acts } | Mut::SubOps { vars, hints, ps, pe, acts } => {
-                let is_ops = matches!(m, Mut::SubOps { .. });
+            Mut::Sub { is_ops, vars, fill, ps, pe, acts } => {
+                let is_ops = *is_ops;
                 if ps > pe {
                     return None;
                 }
                 let want = if is_ops { pe - ps + 1 } else { pe - ps };
-                // ps <= len: fill_args_at_p_with_hint scans get_node_ref(0..ps) before the array is grown
-                if !(*ps < len.max(*pe) && *ps <= len && acts.len() == want && acts.iter().all(|a| self.act_ok(a))) {
+                if acts.len() != want || !acts.iter().all(|a| self.act_ok(a)) {
                     return None;
                 }
-                if vars.is_empty() || vars.len() != hints.len() || vars.iter().any(|v| *v >= self.nvars) {
-                    return None;
+                if let Some(vs) = vars {
+                    let distinct = (0..vs.len()).all(|i| (0..i).all(|j| vs[i] != vs[j]));
+                    if vs.is_empty() || !distinct || vs.iter().any(|v| *v >= self.nvars) {
+                        return None;
+                    }
                 }
-                let hints: Vec<Option<usize>> = hints
-                    .iter()
-                    .zip(vars.iter())
-                    .map(|(h, v)| h.filter(|h| *h < len && self.slots[*h].as_ref().map(|o| o.vars.contains(v)).unwrap_or(false)))
-                    .collect();
+                let fill = match fill {
+                    Fill::Hint(hints) => {
+                        let vs = vars.as_ref()?; // `*` needs N or A
+                        // ps <= len: fill_args_at_p_with_hint scans get_node_ref(0..ps) before the array is grown
+                        if hints.len() != vs.len() || !(*ps < len.max(*pe) && *ps <= len) {
+                            return None;
+                        }
+                        Fill::Hint(
+                            hints
+                                .iter()
+                                .zip(vs.iter())
+                                .map(|(h, v)| h.filter(|h| *h < len && self.slots[*h].as_ref().map(|o| o.vars.contains(v)).unwrap_or(false)))
+                                .collect(),
+                        )
+                    }
+                    Fill::N | Fill::A => {
+                        // fill_args_at_p indexes ops[ps] before the array is grown
+                        if *ps >= len {
+                            return None;
+                        }
+                        if let Some(vs) = vars {
+                            // documented boundary (probe varlist_nohint): no listed variable has an op
+                            // although a slot below ps is occupied => last_p stays None
+                            let listed_has_op = self.slots.iter().flatten().any(|o| o.vars.iter().any(|v| vs.contains(v)));
+                            let below_occ = self.slots[..*ps].iter().any(|x| x.is_some());
+                            if !listed_has_op && below_occ {
+                                return None;
+                            }
+                        }
+                        fill.clone()
+                    }
+                };
                 let mut acts = acts.clone();
                 for (i, a) in acts.iter_mut().enumerate() {
                     let p = ps + i;
                     let old = if p < len { self.slots[p].as_ref() } else { None };
-                    let old_ok = old.map(|o| subset(o, vars)).unwrap_or(true);
-                    let new_ok = match a {
-                        Act::S(o) => subset(o, vars),
-                        _ => true,
-                    };
-                    if !(old_ok && new_ok) || (is_ops && old.is_none()) {
-                        *a = Act::K;
+                    match vars {
+                        Some(vs) => {
+                            let old_ok = old.map(|o| subset(o, vs)).unwrap_or(true);
+                            let new_ok = match a {
+                                Act::S(o) => subset(o, vs),
+                                _ => true,
+                            };
+                            if !(old_ok && new_ok) || (is_ops && old.is_none()) {
+                                *a = Act::K;
+                            }
+                        }
+                        None => {
+                            // `*`: subps behaves like ps, subops like ops
+                            if is_ops && (old.is_none() || *a == Act::R) {
+                                *a = Act::K;
+                            }
+                        }
                     }
                 }
-                if is_ops {
-                    Some(Mut::SubOps { vars: vars.clone(), hints, ps: *ps, pe: *pe, acts })
-                } else {
-                    Some(Mut::SubPs { vars: vars.clone(), hints, ps: *ps, pe: *pe, acts })
-                }
+                Some(Mut::Sub { is_ops, vars: vars.clone(), fill, ps: *ps, pe: *pe, acts })
             }
         }
     }
@@ -365,7 +421,8 @@ impl Naive {
 // applying a mutation to the real container
 // -------------------------------------------------------------------------------------------
 
-fn apply_real(c: &mut Option<FastOps>, m: &Mut) {
+/// `pre` receives the verdict on the cursor built by an N/A fill (checked before the mutation runs).
+fn apply_real(c: &mut Option<FastOps>, m: &Mut, pre: &mut Option<String>) {
     match m {
         Mut::New { nvars, nb } => {
             *c = Some(match nb {
@@ -392,15 +449,33 @@ fn apply_real(c: &mut Option<FastOps>, m: &Mut) {
                 Mut::Ops { ps, pe, acts } => {
                     c.mutate_ops(*ps, *pe, (), |_, _op, p, t| (acts[p - ps].ret(), t));
                 }
-                Mut::SubPs { vars, hints, ps, pe, acts } => {
-                    let mut a = c.get_empty_args(SubvarAccess::Varlist(vars));
-                    c.fill_args_at_p_with_hint(*ps, &mut a, vars, hints.iter().cloned());
-                    c.mutate_subsection(*ps, *pe, 0usize, |_, _op, i| (acts[i].ret(), i + 1), Some(a));
-                }
-                Mut::SubOps { vars, hints, ps, pe, acts } => {
-                    let mut a = c.get_empty_args(SubvarAccess::Varlist(vars));
-                    c.fill_args_at_p_with_hint(*ps, &mut a, vars, hints.iter().cloned());
-                    c.mutate_subsection_ops(*ps, *pe, (), |_, _op, p, t| (acts[p - ps].ret(), t), Some(a));
+                Mut::Sub { is_ops, vars, fill, ps, pe, acts } => {
+                    let a = match fill {
+                        Fill::Hint(hints) => {
+                            let vs = vars.as_ref().expect("hint fill needs a variable list");
+                            let mut a = c.get_empty_args(SubvarAccess::Varlist(vs));
+                            c.fill_args_at_p_with_hint(*ps, &mut a, vs, hints.iter().cloned());
+                            a
+                        }
+                        Fill::N | Fill::A => {
+                            let before = scan(c);
+                            let a = match vars {
+                                Some(vs) => c.get_empty_args(SubvarAccess::Varlist(vs)),
+                                None => c.get_empty_args(SubvarAccess::All),
+                            };
+                            let a = if *fill == Fill::A { c.get_empty_args(SubvarAccess::Args(a)) } else { a };
+                            let a = c.fill_args_at_p(*ps, a);
+                            let cur = parse_args_debug(*ps, &format!("{:?}", a));
+                            let listed: Vec<usize> = vars.clone().unwrap_or_else(|| (0..c.get_nvars()).collect());
+                            *pre = check_prefill(&cur, &before, &listed, &fill.show()).err();
+                            a
+                        }
+                    };
+                    if *is_ops {
+                        c.mutate_subsection_ops(*ps, *pe, (), |_, _op, p, t| (acts[p - ps].ret(), t), Some(a));
+                    } else {
+                        c.mutate_subsection(*ps, *pe, 0usize, |_, _op, i| (acts[i].ret(), i + 1), Some(a));
+                    }
                 }
                 _ => unreachable!(),
             }
@@ -438,6 +513,23 @@ struct CurObs {
     unfilled: usize,
 }
 
+/// Result of a by-variable accessor: Err(_), Ok(x), or the call panicked.
+#[derive(Clone, Debug, PartialEq, Eq)]
+enum BV {
+    E,
+    O(Option<PR>),
+    P,
+}
+impl BV {
+    fn show(&self) -> String {
+        match self {
+            BV::E => "E".into(),
+            BV::O(x) => f_pr(*x),
+            BV::P => "P".into(),
+        }
+    }
+}
+
 #[derive(Clone, Debug, Default)]
 struct Obs {
     // contents (public get_pth / get_cutoff)
@@ -459,8 +551,17 @@ struct Obs {
     g_counts: Vec<usize>,
     gv: Vec<(Option<PR>, Option<PR>, bool)>,
     g_nodes: Vec<NodeObs>,
+    /// per occupied p, per variable: (get_previous_p_for_var, get_next_p_for_var)
+    bv: Vec<(usize, Vec<(BV, BV)>)>,
     nth_done: bool,
     nth: Vec<usize>,
+    it_a: usize,
+    it_b: usize,
+    it_done: bool,
+    it_ops: Vec<(usize, String)>,
+    it_try_ops: Vec<(usize, String)>,
+    it_ps: Vec<Option<String>>,
+    it_try_ps: Vec<Option<String>>,
     cu_done: bool,
     cu: Vec<CurObs>,
     panic: Option<String>,
@@ -556,6 +657,9 @@ fn observe(c: &mut FastOps, qs: &[usize]) -> Obs {
         Some(snap["bond_counters"].as_array().expect("bond_counters").iter().map(|x| x.as_u64().expect("counter") as usize).collect())
     };
     drop(snap);
+    let (ia, ib) = if qs.is_empty() { (0, o.cutoff) } else { (*qs.iter().min().unwrap(), *qs.iter().max().unwrap()) };
+    o.it_a = ia;
+    o.it_b = ib;
     // getters (may panic on a corrupt container: keep what was read so far)
     let r = catch(|| {
         o.g_n = c.get_n();
@@ -584,6 +688,27 @@ fn observe(c: &mut FastOps, qs: &[usize]) -> Obs {
                 });
             }
         }
+        // by-variable accessors, every (occupied p, variable); each call caught on its own
+        for p in 0..c.get_cutoff() {
+            if let Some(node) = c.get_node_ref(p) {
+                let row: Vec<(BV, BV)> = (0..nvars)
+                    .map(|v| {
+                        let pr = catch(|| match c.get_previous_p_for_var(v, node) {
+                            Ok(x) => BV::O(x.map(|r| (r.p, r.relv))),
+                            Err(_) => BV::E,
+                        })
+                        .unwrap_or(BV::P);
+                        let nx = catch(|| match c.get_next_p_for_var(v, node) {
+                            Ok(x) => BV::O(x.map(|r| (r.p, r.relv))),
+                            Err(_) => BV::E,
+                        })
+                        .unwrap_or(BV::P);
+                        (pr, nx)
+                    })
+                    .collect();
+                o.bv.push((p, row));
+            }
+        }
         o.g_done = true;
         let n = o.g_n;
         if n > 0 {
@@ -593,6 +718,27 @@ fn observe(c: &mut FastOps, qs: &[usize]) -> Obs {
             }
         }
         o.nth_done = true;
+        o.it_ops = c.iterate_ops(ia, ib, Vec::new(), |_, op, p, mut acc: Vec<(usize, String)>| {
+            acc.push((p, show_op(op)));
+            acc
+        });
+        o.it_try_ops = c
+            .try_iterate_ops(ia, ib, Vec::new(), |_, op, p, mut acc: Vec<(usize, String)>| -> Result<Vec<(usize, String)>, ()> {
+                acc.push((p, show_op(op)));
+                Ok(acc)
+            })
+            .unwrap();
+        o.it_ps = c.iterate_ps(ia, ib, Vec::new(), |_, op, mut acc: Vec<Option<String>>| {
+            acc.push(op.map(|x| show_op(x)));
+            acc
+        });
+        o.it_try_ps = c
+            .try_iterate_ps(ia, ib, Vec::new(), |_, op, mut acc: Vec<Option<String>>| -> Result<Vec<Option<String>>, ()> {
+                acc.push(op.map(|x| show_op(x)));
+                Ok(acc)
+            })
+            .unwrap();
+        o.it_done = true;
         for &p in qs {
             let a = c.get_empty_args(SubvarAccess::All);
             let a = c.fill_args_at_p(p, a);
@@ -694,7 +840,30 @@ fn format_obs(o: &Obs) -> String {
     } else {
         "cu:PANIC".to_string()
     };
-    [t1, t2, t3, t4, t5, t6, t7, t8, t9, t10, t11, "inv1".to_string()].join(" ")
+    let t12 = if o.g_done {
+        format!(
+            "bv:{}",
+            if o.bv.is_empty() {
+                "-".to_string()
+            } else {
+                o.bv
+                    .iter()
+                    .map(|(p, row)| format!("{}/{}", p, row.iter().map(|(a, b)| format!("{}:{}", a.show(), b.show())).collect::<Vec<_>>().join(",")))
+                    .collect::<Vec<_>>()
+                    .join("+")
+            }
+        )
+    } else {
+        "bv:PANIC".to_string()
+    };
+    let t13 = if o.it_done {
+        let l1: Vec<usize> = o.it_ops.iter().map(|x| x.0).collect();
+        let l2: Vec<bool> = o.it_ps.iter().map(|x| x.is_some()).collect();
+        format!("it:{}.{}/{}/{}", o.it_a, o.it_b, list(&l1), bits(&l2))
+    } else {
+        format!("it:{}.{}/PANIC/PANIC", o.it_a, o.it_b)
+    };
+    [t1, t2, t3, t4, t5, t6, t7, t8, t9, t10, t11, t12, t13, "inv1".to_string()].join(" ")
 }
 
 // -------------------------------------------------------------------------------------------
@@ -734,6 +903,32 @@ macro_rules! chk {
             return Err(format!("{}: got {:?} expected {:?}", $what, $got, $exp));
         }
     };
+}
+
+/// Compare a cursor filled by the non-hint path (before the mutation) with a direct scan.
+fn check_prefill(cur: &CurObs, s: &[Option<SOp>], listed: &[usize], how: &str) -> Result<(), String> {
+    let ps = cur.p;
+    chk!(format!("pre-mutation cursor ({} fill at ps={}).last_p", how, ps), cur.last_p, prev_occ(s, ps));
+    chk!(format!("pre-mutation cursor ({} fill at ps={}).last_vars.len()", how, ps), cur.lv.len(), listed.len());
+    chk!(format!("pre-mutation cursor ({} fill at ps={}).last_rels.len()", how, ps), cur.lr.len(), listed.len());
+    let mut with_ops = 0;
+    let mut below = 0;
+    for (i, v) in listed.iter().enumerate() {
+        let e = prev_var(s, ps, *v);
+        if s.iter().flatten().any(|o| o.vars.contains(v)) {
+            with_ops += 1;
+        }
+        if e.is_some() {
+            below += 1;
+        }
+        chk!(format!("pre-mutation cursor ({} fill at ps={}).last_vars[{}] (var {})", how, ps, i, v), cur.lv[i], e.map(|x| x.0));
+        chk!(format!("pre-mutation cursor ({} fill at ps={}).last_rels[{}] (var {})", how, ps, i, v), cur.lr[i], e.map(|x| x.1));
+    }
+    // `unfilled` is a transient work counter of the fill, not bookkeeping about the contents: a wrong
+    // value matters only through last_p / last_vars / last_rels (checked above) or through what the
+    // mutation then does to the container (checked by the oracle afterwards), so it is not a verdict here.
+    let _ = (with_ops, below);
+    Ok(())
 }
 
 fn check_nodes(which: &str, nodes: &[NodeObs], s: &[Option<SOp>]) -> Result<(), String> {
@@ -816,10 +1011,60 @@ fn oracle(o: &Obs, s: &[Option<SOp>], nvars: usize, nb: Option<Option<usize>>, e
         chk!(format!("does_var_have_ops({})", v), o.gv[v].2, fl.is_some());
     }
     check_nodes("getter", &o.g_nodes, s)?;
+    // by-variable accessors (default trait methods on top of the rel-var ones)
+    let bvpos: Vec<usize> = o.bv.iter().map(|x| x.0).collect();
+    chk!("by-variable accessors: occupied positions", bvpos, occ);
+    let idx_of = |p: usize| occ.iter().position(|q| *q == p);
+    for (i, (p, row)) in o.bv.iter().enumerate() {
+        let p = *p;
+        let op = s[p].as_ref().unwrap();
+        chk!(format!("by-variable accessors at p={}: number of variables", p), row.len(), nvars);
+        for v in 0..nvars {
+            let (pr, nx) = &row[v];
+            if *pr == BV::P {
+                return Err(format!("get_previous_p_for_var({}, node p={}) panicked", v, p));
+            }
+            if *nx == BV::P {
+                return Err(format!("get_next_p_for_var({}, node p={}) panicked", v, p));
+            }
+            match relv_of(op, v) {
+                None => {
+                    chk!(format!("get_previous_p_for_var({}, node p={}) (variable not on the op)", v, p), *pr, BV::E);
+                    chk!(format!("get_next_p_for_var({}, node p={}) (variable not on the op)", v, p), *nx, BV::E);
+                }
+                Some(k) => {
+                    chk!(format!("get_previous_p_for_var({}, node p={}) vs scan", v, p), *pr, BV::O(prev_var(s, p, v)));
+                    chk!(format!("get_next_p_for_var({}, node p={}) vs scan", v, p), *nx, BV::O(next_var(s, p, v)));
+                    chk!(format!("get_previous_p_for_var({}, node p={}) vs get_previous_p_for_rel_var({})", v, p, k), *pr, BV::O(o.g_nodes[i].prevs[k]));
+                    chk!(format!("get_next_p_for_var({}, node p={}) vs get_next_p_for_rel_var({})", v, p, k), *nx, BV::O(o.g_nodes[i].nexts[k]));
+                    if let BV::O(Some((q, r))) = nx {
+                        let j = idx_of(*q).ok_or_else(|| format!("get_next_p_for_var({}, node p={}) points at empty slot {}", v, p, q))?;
+                        chk!(format!("relv returned by get_next_p_for_var({}, node p={}) vs index of the variable in the op at {}", v, p, q), Some(*r), relv_of(s[*q].as_ref().unwrap(), v));
+                        chk!(format!("backward link: get_previous_p_for_var({}, node p={}) after following next from p={}", v, q, p), o.bv[j].1[v].0, BV::O(Some((p, k))));
+                    }
+                    if let BV::O(Some((q, r))) = pr {
+                        let j = idx_of(*q).ok_or_else(|| format!("get_previous_p_for_var({}, node p={}) points at empty slot {}", v, p, q))?;
+                        chk!(format!("relv returned by get_previous_p_for_var({}, node p={}) vs index of the variable in the op at {}", v, p, q), Some(*r), relv_of(s[*q].as_ref().unwrap(), v));
+                        chk!(format!("forward link: get_next_p_for_var({}, node p={}) after following previous from p={}", v, q, p), o.bv[j].1[v].1, BV::O(Some((p, k))));
+                    }
+                }
+            }
+        }
+    }
     if !o.nth_done {
         return Err(format!("get_nth_p panicked: {}", o.panic.clone().unwrap_or_default()));
     }
     chk!("get_nth_p(0..n)", o.nth, occ);
+    // iteration: ops in [a, b] (upper bound inclusive in the real code), slots in a..min(b, cutoff)
+    if !o.it_done {
+        return Err(format!("iterate_ops / iterate_ps panicked: {}", o.panic.clone().unwrap_or_default()));
+    }
+    let want_ops: Vec<(usize, String)> = (o.it_a..=o.it_b).filter(|p| *p < o.cutoff).filter_map(|p| o.slots[p].clone().map(|x| (p, x))).collect();
+    let want_ps: Vec<Option<String>> = (o.it_a..o.it_b.min(o.cutoff)).map(|p| o.slots[p].clone()).collect();
+    chk!(format!("iterate_ops({}, {})", o.it_a, o.it_b), o.it_ops, want_ops);
+    chk!(format!("try_iterate_ops({}, {})", o.it_a, o.it_b), o.it_try_ops, want_ops);
+    chk!(format!("iterate_ps({}, {})", o.it_a, o.it_b), o.it_ps, want_ps);
+    chk!(format!("try_iterate_ps({}, {})", o.it_a, o.it_b), o.it_try_ps, want_ps);
     if !o.cu_done {
         return Err(format!("fill_args_at_p panicked: {}", o.panic.clone().unwrap_or_default()));
     }
@@ -861,15 +1106,24 @@ fn cursor_positions_all(len: usize) -> Vec<usize> {
 
 /// One step on the real container + oracle. Err = (message) on panic / mismatch.
 fn step_real(c: &mut Option<FastOps>, m: &Mut, nv: &Naive, qs: &[usize]) -> (Option<Obs>, Result<(), String>) {
-    if let Err(p) = catch(|| apply_real(c, m)) {
+    let mut pre: Option<String> = None;
+    let applied = catch(|| apply_real(c, m, &mut pre));
+    if let Err(p) = applied {
         drain_pool_log();
-        return (None, Err(format!("{} panicked inside the valid domain: {}", m.kind(), p)));
+        let e = match pre {
+            Some(e) => format!("{} ;; then {} panicked: {}", e, m.kind(), p),
+            None => format!("{} panicked inside the valid domain: {}", m.kind(), p),
+        };
+        return (None, Err(e));
     }
     let cc = c.as_mut().unwrap();
     let o = observe(cc, qs);
     let s = scan(cc);
     drain_pool_log();
-    let r = oracle(&o, &s, nv.nvars, Some(nv.nb), Some(nv));
+    let r = match pre {
+        Some(e) => Err(e),
+        None => oracle(&o, &s, nv.nvars, Some(nv.nb), Some(nv)),
+    };
     (Some(o), r)
 }
 
@@ -961,28 +1215,23 @@ fn shrink(seq: Vec<Mut>, msg: String) -> (Vec<Mut>, String) {
                         })
                         .collect()
                 }
-                Mut::SubPs { vars, hints, ps, pe, acts } | Mut::SubOps { vars, hints, ps, pe, acts } => {
-                    let is_ops = matches!(cur[i], Mut::SubOps { .. });
-                    let mk = |h: Vec<Option<usize>>, a: Vec<Act>| {
-                        if is_ops {
-                            Mut::SubOps { vars: vars.clone(), hints: h, ps: *ps, pe: *pe, acts: a }
-                        } else {
-                            Mut::SubPs { vars: vars.clone(), hints: h, ps: *ps, pe: *pe, acts: a }
-                        }
-                    };
+                Mut::Sub { is_ops, vars, fill, ps, pe, acts } => {
+                    let mk = |f: Fill, a: Vec<Act>| Mut::Sub { is_ops: *is_ops, vars: vars.clone(), fill: f, ps: *ps, pe: *pe, acts: a };
                     let mut v: Vec<Mut> = (0..acts.len())
                         .filter(|k| acts[*k] != Act::K)
                         .map(|k| {
                             let mut a = acts.clone();
                             a[k] = Act::K;
-                            mk(hints.clone(), a)
+                            mk(fill.clone(), a)
                         })
                         .collect();
-                    for k in 0..hints.len() {
-                        if hints[k].is_some() {
-                            let mut h = hints.clone();
-                            h[k] = None;
-                            v.push(mk(h, acts.clone()));
+                    if let Fill::Hint(hints) = fill {
+                        for k in 0..hints.len() {
+                            if hints[k].is_some() {
+                                let mut h = hints.clone();
+                                h[k] = None;
+                                v.push(mk(Fill::Hint(h), acts.clone()));
+                            }
                         }
                     }
                     v
@@ -1044,6 +1293,9 @@ struct Hist {
     len: usize,
     style: Style,
     install: bool,
+    /// variables ops may use (all of them, or only the high ones in the high-variables style)
+    pool: Vec<usize>,
+    highvars: bool,
 }
 
 fn rand_vars(g: &mut SplitMix64, pool: &[usize], k: usize) -> Vec<usize> {
@@ -1129,7 +1381,7 @@ fn occupancy_pct(nv: &Naive) -> u64 {
 
 /// act for one position of a `ps`-like sweep (`pool` = variables new ops may use; `elig` = position may change)
 fn sweep_act(g: &mut SplitMix64, h: &Hist, nv: &Naive, old: Option<&OpS>, pool: &[usize], activity: u64, allow_r: bool) -> Act {
-    if !g.chance(activity, 100) {
+    if pool.is_empty() || !g.chance(activity, 100) {
         return Act::K;
     }
     let over = occupancy_pct(nv) > h.dens;
@@ -1206,7 +1458,7 @@ fn gen_ps(g: &mut SplitMix64, h: &Hist, nv: &Naive) -> Mut {
     let len = nv.len();
     let (ps, pe) = pick_range(g, h, len, false);
     let activity = pick_activity(g);
-    let all: Vec<usize> = (0..h.nvars).collect();
+    let all = h.pool.clone();
     let acts = (ps..pe).map(|p| sweep_act(g, h, nv, if p < len { nv.slots[p].as_ref() } else { None }, &all, activity, true)).collect();
     Mut::Ps { ps, pe, acts }
 }
@@ -1224,7 +1476,12 @@ fn gen_clear(nv: &Naive, g: &mut SplitMix64) -> Mut {
         _ => {
             // sub-variable ops sweep over all variables removes everything as well
             let acts = (0..=len).map(|p| if p < len && nv.slots[p].is_some() { Act::R } else { Act::K }).collect();
-            Mut::SubOps { vars: all.clone(), hints: vec![None; all.len()], ps: 0, pe: len, acts }
+            let fill = match g.below(3) {
+                0 => Fill::Hint(vec![None; all.len()]),
+                1 => Fill::N,
+                _ => Fill::A,
+            };
+            Mut::Sub { is_ops: true, vars: Some(all.clone()), fill, ps: 0, pe: len, acts }
         }
     }
 }
@@ -1239,7 +1496,7 @@ fn gen_ops(g: &mut SplitMix64, h: &Hist, nv: &Naive) -> Mut {
         (a, b)
     };
     let activity = pick_activity(g).max(30);
-    let all: Vec<usize> = (0..h.nvars).collect();
+    let all = h.pool.clone();
     let acts = (ps..=pe)
         .map(|p| {
             if p < len && nv.slots[p].is_some() {
@@ -1254,53 +1511,97 @@ fn gen_ops(g: &mut SplitMix64, h: &Hist, nv: &Naive) -> Mut {
 
 fn gen_sub(g: &mut SplitMix64, h: &Hist, nv: &Naive, is_ops: bool) -> Mut {
     let len = nv.len();
+    // fill mode: 1/3 hint, 1/3 N (plain fill_args_at_p), 1/3 A (through SubvarAccess::Args); `*` in 1/4 of N/A
+    let mode = g.below(3);
+    let star = mode != 0 && g.chance(1, 4);
+    let all: Vec<usize> = (0..h.nvars).collect();
+    // random subset (any variables, random order); in the high-variables style mostly the high ones
+    let source: &[usize] = if h.highvars && g.chance(7, 10) { &h.pool } else { &all };
     let k = match g.below(10) {
         0..=3 => 1,
         4..=6 => 2,
         7..=8 => 3,
-        _ => h.nvars,
+        _ => source.len(),
     }
-    .min(h.nvars);
-    let all: Vec<usize> = (0..h.nvars).collect();
-    let vars = rand_vars(g, &all, k);
-    let (ps, pe) = pick_range(g, h, len, true);
-    // hints: `_` or any position holding an op that contains the variable
-    let hints: Vec<Option<usize>> = vars
-        .iter()
-        .map(|v| {
-            let cands: Vec<usize> = (0..len).filter(|p| nv.slots[*p].as_ref().map(|o| o.vars.contains(v)).unwrap_or(false)).collect();
-            if cands.is_empty() || g.chance(2, 5) {
-                None
-            } else if cands.contains(&ps) && g.chance(1, 3) {
-                Some(ps)
-            } else {
-                Some(*g.pick(&cands))
-            }
-        })
-        .collect();
+    .min(source.len());
+    let mut vars = rand_vars(g, source, k);
+    let (mut ps, pe) = pick_range(g, h, len, true);
+    if mode != 0 && ps >= len {
+        ps = len - 1; // fill_args_at_p indexes ops[ps] before the array is grown
+    }
+    if mode != 0 && !star {
+        // stay off the documented boundary: no listed variable has an op although a slot below ps is occupied
+        let listed_has_op = nv.slots.iter().flatten().any(|o| o.vars.iter().any(|v| vars.contains(v)));
+        let below_occ = nv.slots[..ps].iter().any(|x| x.is_some());
+        if !listed_has_op && below_occ {
+            let with_ops: Vec<usize> = all.iter().cloned().filter(|v| nv.slots.iter().flatten().any(|o| o.vars.contains(v))).collect();
+            vars[0] = *g.pick(&with_ops);
+        }
+    }
+    let fill = match mode {
+        0 => Fill::Hint(
+            // hints: `_` or any position holding an op that contains the variable
+            vars.iter()
+                .map(|v| {
+                    let cands: Vec<usize> = (0..len).filter(|p| nv.slots[*p].as_ref().map(|o| o.vars.contains(v)).unwrap_or(false)).collect();
+                    if cands.is_empty() || g.chance(2, 5) {
+                        None
+                    } else if cands.contains(&ps) && g.chance(1, 3) {
+                        Some(ps)
+                    } else {
+                        Some(*g.pick(&cands))
+                    }
+                })
+                .collect(),
+        ),
+        1 => Fill::N,
+        _ => Fill::A,
+    };
     let activity = pick_activity(g).max(30);
     let upto = if is_ops { pe + 1 } else { pe };
-    let acts = (ps..upto)
-        .map(|p| {
-            let old = if p < len { nv.slots[p].as_ref() } else { None };
-            let elig = old.map(|o| o.vars.iter().all(|v| vars.contains(v))).unwrap_or(true);
-            if !elig || (is_ops && old.is_none()) {
-                Act::K
-            } else {
-                sweep_act(g, h, nv, old, &vars, activity, true)
-            }
-        })
-        .collect();
-    if is_ops {
-        Mut::SubOps { vars, hints, ps, pe, acts }
+    let acts: Vec<Act> = if star {
+        // `*`: exactly the domain of ps / ops
+        (ps..upto)
+            .map(|p| {
+                let old = if p < len { nv.slots[p].as_ref() } else { None };
+                if is_ops {
+                    if old.is_some() {
+                        sweep_act(g, h, nv, old, &h.pool, activity, false)
+                    } else {
+                        Act::K
+                    }
+                } else {
+                    sweep_act(g, h, nv, old, &h.pool, activity, true)
+                }
+            })
+            .collect()
     } else {
-        Mut::SubPs { vars, hints, ps, pe, acts }
-    }
+        let pool: Vec<usize> = vars.iter().cloned().filter(|v| h.pool.contains(v)).collect();
+        (ps..upto)
+            .map(|p| {
+                let old = if p < len { nv.slots[p].as_ref() } else { None };
+                let elig = old.map(|o| o.vars.iter().all(|v| vars.contains(v))).unwrap_or(true);
+                if !elig || (is_ops && old.is_none()) {
+                    Act::K
+                } else if pool.is_empty() {
+                    // no new op can be built from the listed variables: only removals
+                    if old.is_some() && g.chance(activity, 100) && g.coin() {
+                        Act::R
+                    } else {
+                        Act::K
+                    }
+                } else {
+                    sweep_act(g, h, nv, old, &pool, activity, true)
+                }
+            })
+            .collect()
+    };
+    Mut::Sub { is_ops, vars: if star { None } else { Some(vars) }, fill, ps, pe, acts }
 }
 
 fn gen_set(g: &mut SplitMix64, h: &Hist, nv: &Naive) -> Mut {
     let len = nv.len();
-    let all: Vec<usize> = (0..h.nvars).collect();
+    let all = h.pool.clone();
     let occ: Vec<usize> = (0..len).filter(|p| nv.slots[*p].is_some()).collect();
     let emp: Vec<usize> = (0..len).filter(|p| nv.slots[*p].is_none()).collect();
     let want_empty = if occupancy_pct(nv) > h.dens { g.chance(3, 10) } else { g.chance(7, 10) };
@@ -1343,7 +1644,7 @@ fn gen_first_growth(g: &mut SplitMix64, h: &Hist, nv: &Naive) -> Mut {
         Mut::Cutoff(1 + g.below(h.cap.min(12) as u64) as usize)
     } else {
         let pe = 1 + g.below(h.cap.min(10) as u64) as usize;
-        let all: Vec<usize> = (0..h.nvars).collect();
+        let all = h.pool.clone();
         let acts = (0..pe).map(|_| sweep_act(g, h, nv, None, &all, 60, true)).collect();
         Mut::Ps { ps: 0, pe, acts }
     }
@@ -1352,8 +1653,13 @@ fn gen_first_growth(g: &mut SplitMix64, h: &Hist, nv: &Naive) -> Mut {
 fn gen_single(g: &mut SplitMix64, h: &Hist, nv: &Naive) -> Mut {
     // keep at most one op in the container: insert one, look at it, remove it, insert elsewhere...
     let len = nv.len();
-    let all: Vec<usize> = (0..h.nvars).collect();
+    let all = h.pool.clone();
     let occ: Vec<usize> = (0..len).filter(|p| nv.slots[*p].is_some()).collect();
+    let rand_fill = |g: &mut SplitMix64, hints: Vec<Option<usize>>| match g.below(3) {
+        0 => Fill::Hint(hints),
+        1 => Fill::N,
+        _ => Fill::A,
+    };
     if occ.is_empty() {
         let p = g.below(len as u64) as usize;
         let op = rand_op(g, h, &all);
@@ -1367,7 +1673,8 @@ fn gen_single(g: &mut SplitMix64, h: &Hist, nv: &Naive) -> Mut {
             2 => {
                 let vars = op.vars.clone();
                 let n = vars.len();
-                Mut::SubPs { vars, hints: vec![None; n], ps: p, pe: p + 1, acts: vec![Act::S(op)] }
+                let fill = rand_fill(g, vec![None; n]);
+                Mut::Sub { is_ops: false, vars: Some(vars), fill, ps: p, pe: p + 1, acts: vec![Act::S(op)] }
             }
             _ => Mut::Set { p, act: Act::S(op) },
         }
@@ -1388,7 +1695,8 @@ fn gen_single(g: &mut SplitMix64, h: &Hist, nv: &Naive) -> Mut {
                 let mut hints = vec![None; n];
                 hints[0] = hint;
                 let acts = (0..=len - p).map(|i| if i == 0 { Act::R } else { Act::K }).collect();
-                Mut::SubOps { vars: old.vars.clone(), hints, ps: p, pe: len, acts }
+                let fill = rand_fill(g, hints);
+                Mut::Sub { is_ops: true, vars: Some(old.vars.clone()), fill, ps: p, pe: len, acts }
             }
             5 => {
                 if g.coin() {
@@ -1430,7 +1738,7 @@ fn gen_step(g: &mut SplitMix64, h: &Hist, nv: &Naive, step: usize) -> Mut {
 }
 
 fn gen_install(g: &mut SplitMix64, h: &Hist) -> Mut {
-    let all: Vec<usize> = (0..h.nvars).collect();
+    let all = h.pool.clone();
     let l = match g.below(10) {
         0 => 0,
         1 => 1,
@@ -1508,6 +1816,23 @@ fn run_history(g: &mut SplitMix64, hidx: usize, h: &Hist, st: &mut Stats) -> (us
             *st.entry("became_empty".into()).or_insert(0) += 1;
         }
         *st.entry(format!("kind_{}", m.kind())).or_insert(0) += 1;
+        if let Mut::Sub { vars, fill, .. } = &m {
+            let f = match fill {
+                Fill::Hint(_) => "hint",
+                Fill::N => "N",
+                Fill::A => "A",
+            };
+            *st.entry(format!("{}_fill_{}", m.kind(), f)).or_insert(0) += 1;
+            match vars {
+                None => *st.entry(format!("{}_star", m.kind())).or_insert(0) += 1,
+                Some(vs) => {
+                    let leading = { let mut x = vs.clone(); x.sort(); x == (0..vs.len()).collect::<Vec<_>>() };
+                    if !leading {
+                        *st.entry(format!("{}_nonleading_varlist", m.kind())).or_insert(0) += 1;
+                    }
+                }
+            }
+        }
         let bucket = match nv.len() {
             0..=10 => "cutoff_le10",
             11..=40 => "cutoff_le40",
@@ -1522,6 +1847,20 @@ fn run_history(g: &mut SplitMix64, hidx: usize, h: &Hist, st: &mut Stats) -> (us
         let (obs, r) = step_real(&mut c, &m, &nv, &qs);
         lines += 1;
         let nontrivial = nv.n_occ() > 0;
+        if let Some(o) = &obs {
+            // (p, v) pairs with v on the op: the by-variable accessors must answer; relv != v is where
+            // passing the variable instead of its relative index shows
+            for (p, _) in &o.bv {
+                if let Some(Some(op)) = nv.slots.get(*p) {
+                    for (k, v) in op.vars.iter().enumerate() {
+                        *st.entry("byvar_checks".into()).or_insert(0) += 1;
+                        if k != *v {
+                            *st.entry("byvar_checks_relv_ne_var".into()).or_insert(0) += 1;
+                        }
+                    }
+                }
+            }
+        }
         match (obs, r) {
             (Some(o), Ok(())) => {
                 before = o.slots_str.clone();
@@ -1544,7 +1883,17 @@ fn run_history(g: &mut SplitMix64, hidx: usize, h: &Hist, st: &mut Stats) -> (us
 }
 
 fn pick_hist(g: &mut SplitMix64, thorough: bool) -> Hist {
-    let nvars = 1 + g.below(6) as usize;
+    let mut nvars = 1 + g.below(6) as usize;
+    // high-variables style (~15%): no op ever uses variable 0 (half of the time also not variable 1)
+    let highvars = g.chance(3, 20);
+    let mut pool: Vec<usize> = (0..nvars).collect();
+    if highvars {
+        if nvars < 3 {
+            nvars = 3 + g.below(4) as usize;
+        }
+        let lo = if g.coin() { 2 } else { 1 };
+        pool = (lo..nvars).collect();
+    }
     let install = g.chance(1, 4);
     let nb = if install || g.chance(2, 5) { None } else { Some(1 + g.below(6) as usize) };
     let bondlim = nb.unwrap_or(6);
@@ -1579,7 +1928,7 @@ fn pick_hist(g: &mut SplitMix64, thorough: bool) -> Hist {
             *g.pick(&[5u64, 15, 30, 50, 70, 90]),
         )
     };
-    Hist { nvars, nb, bondlim, cap, dens, len, style, install }
+    Hist { nvars, nb, bondlim, cap, dens, len, style, install, pool, highvars }
 }
 
 // -------------------------------------------------------------------------------------------
@@ -1693,7 +2042,7 @@ fn main() {
     let a = args();
     let mut g = SplitMix64::new(a.seed ^ 0xC11_C11);
     let mut st: Stats = BTreeMap::new();
-    let target = if a.thorough { 80_000 } else { 8_000 };
+    let target = if a.thorough { 70_000 } else { 8_000 };
     let mut total = 0usize;
     let mut hidx = 0usize;
     let mut failing = 0usize;
@@ -1702,6 +2051,9 @@ fn main() {
         let h = pick_hist(&mut g, a.thorough);
         *st.entry(format!("nvars_{}", h.nvars)).or_insert(0) += 1;
         *st.entry(format!("style_{:?}", h.style).to_lowercase()).or_insert(0) += 1;
+        if h.highvars {
+            *st.entry("hist_highvars".into()).or_insert(0) += 1;
+        }
         *st.entry(if h.nb.is_some() { "hist_with_bond_counters".to_string() } else { "hist_without_bond_counters".to_string() }).or_insert(0) += 1;
         let (lines, failed) = run_history(&mut g, hidx, &h, &mut st);
         total += lines;
